@@ -35,6 +35,7 @@ const Link LINKS[] = {
     {"LINUX_SLL", DLT_LINUX_SLL, 113, "dlt:LINUX_SLL", true},
     {"RAW", DLT_RAW, 101, "dlt:RAW", true},
     {"PPI", DLT_PPI, 192, "dlt:PPI", false},
+    {"PKTAP", DLT_PKTAP, 258, "dlt:PKTAP", false},  // read-only as well; not in the statement's list but handled by the sniffer
 };
 const size_t NLINKS = sizeof LINKS / sizeof *LINKS;
 
@@ -405,7 +406,7 @@ void prop(Src& s, Ctx& ctx) {
                desc << "\n expected " << render(expect) << "\n got      " << render(got));
     }
     // OfflinePacketFilter on parsed packets: must agree with libpcap on the packet's own serialisation
-    if (mode == 2) {
+    if (mode == 2 && link.dlt != DLT_PKTAP) {  // (there is no DataLinkType<PKTAP>, and PKTAP packets cannot be serialised)
         try {
             std::unique_ptr<OfflinePacketFilter> opf_holder(make_offline_filter(link, filter));
             OfflinePacketFilter& opf = *opf_holder;
